@@ -174,7 +174,7 @@ int lltd_port_send_frame(void *iface_ctx, const void *frame, size_t frame_len) {
     unsigned idx = g_nsend++;
     V_CTX(iface_ctx);
 #ifdef VERIF_CBMC
-    __CPROVER_assert(frame != 0 && __CPROVER_r_ok(frame, frame_len), "send_frame: frame readable for frame_len");
+    __CPROVER_assert(frame != 0 && __CPROVER_r_ok(frame, frame_len), "C01,C02,C18: transmitted frame readable for its whole length");
 #endif
     v_preempt();
     on_send(iface_ctx, (const uint8_t *)frame, frame_len);
